@@ -667,6 +667,11 @@ func (g *G) Frame(kind string) *frame.Frame {
 			}
 		}
 		f.SetCustomPayload(p)
+		if len(p) == 0 && g.chance(2) {
+			// the flag with a payload of zero entries: what the decoder yields for the bytes `0000` under the flag
+			f.Header.Flags = f.Header.Flags.Add(primitive.HeaderFlagCustomPayload)
+			f.Body.CustomPayload = map[string][]byte{}
+		}
 	}
 	return f
 }
